@@ -180,6 +180,10 @@ func (pr *PolicyResolver) OnPolicyMatchStopped(policyKey model.PolicyKey, endpoi
 	// This policy is not active anymore, we no longer need to track it for sorting.
 	if !pr.policyIDToEndpointIDs.ContainsKey(policyKey) {
 		pr.policySorter.UpdatePolicy(policyKey, nil)
+		// If the policy started matching since the last flush, it is still queued to be added
+		// to the sorter; cancel that, or Flush() would add a policy that matches nothing (and
+		// that OnUpdate() then no longer keeps up to date).
+		pr.pendingPolicyUpdates.Discard(policyKey)
 	}
 
 	pr.dirtyEndpoints.Add(endpointKey)
